@@ -111,6 +111,21 @@ def make_case(seed, index, tier):
             for round_ in user['rounds']:
                 if rng.random() < 0.3 and not round_.get('shared'):
                     round_['amounts'] = dict(round_['amounts'], u=rng.choice([1, 2, 1000]))
+    if not unlimited and kind == 'resources' and not fractional and rng.random() < 0.25:
+        # one more resource of which there is a huge (exact) amount: claims of all of it are
+        # granted, claims of one more than there is are refused - however small the difference
+        # is compared with the amount
+        huge = rng.choice([10 ** 12, 10 ** 15 + 7, 2 ** 60])
+        supply = dict(supply, h=huge)
+        for user in users:
+            for round_ in user['rounds']:
+                if round_.get('shared') or rng.random() < 0.5:
+                    continue
+                if round_['claim']:
+                    round_['amounts'] = dict(round_['amounts'], h=huge + rng.choice([0, 1, 1, 2]))
+                else:
+                    round_['amounts'] = dict(round_['amounts'], h=rng.choice([huge, huge - 1, 1]))
+                round_.pop('nested', None)
     return {'seed': seed, 'index': index, 'tier': tier,
             'scenario': {'kind': kind, 'supply': supply, 'users': users, 'adjust': adjust}}
 
